@@ -3,6 +3,7 @@
 // never counted as proved; its job is to produce a concrete counterexample, replayed natively, when the function
 // stops being the maximal-adjacent-prefix function -- including when it has been rewritten so that the Verus
 // unit can no longer be assembled.
+//@desugar bitar/src/archive_reader/http_reader.rs :: impl ChunkReader<'_> :: fn adjacent_reads :: R3 :: adjacent_reads__desugared
 //@inject bitar/src/archive_reader/http_reader.rs
 #[cfg(kani)]
 mod verif_kani {
@@ -32,5 +33,24 @@ mod verif_kani {
         assert!(r == want);
         kani::cover!(r == N);
         kani::cover!(r == 1 && n > 1);
+    }
+
+    /// translation validation of rule R3: the real iterator chain and the desugared index loop agree
+    #[kani::proof]
+    #[kani::unwind(7)]
+    fn tv_rule_r3_adjacent_reads() {
+        const N: usize = 5;
+        let mut arr = [ChunkOffset::new(0, 0); N];
+        let mut i = 0;
+        while i < N {
+            let offset: u64 = kani::any();
+            let size: u32 = kani::any();
+            kani::assume(offset <= u64::MAX / 4);
+            arr[i] = ChunkOffset::new(offset, size as usize);
+            i += 1;
+        }
+        let n: usize = kani::any();
+        kani::assume(n >= 1 && n <= N);
+        assert!(ChunkReader::adjacent_reads(&arr[..n]) == ChunkReader::adjacent_reads__desugared(&arr[..n]));
     }
 }
